@@ -87,6 +87,12 @@ class _Rewrite(ast.NodeTransformer):
         r = self.generic_expr(node)
         return r if r is not None else node
 
+    def visit_Call(self, node):
+        # a call named in `names` (e.g. `_unversioned_name(group_item)`) stands for a parameter
+        if ast.unparse(node) in self.names:
+            return ast.Name(id=self.names[ast.unparse(node)], ctx=ast.Load())
+        return self.generic_visit(node)
+
     def elements(self, node):
         if isinstance(node, (ast.Tuple, ast.List, ast.Set)):
             return node.elts
@@ -132,18 +138,29 @@ def build_T16a(tree):
     if not (isinstance(ret, ast.Return) and isinstance(ret.value, ast.Tuple) and [ast.unparse(e) for e in ret.value.elts] == counters
             and len(counters) == 5):
         raise Unsupported(f'_count_roi_items no longer returns its five counters in order: {counters}')
-    rw = _Rewrite(mc, names={'group_item.ValueType': 'value_type', 'group_item.name': 'name'})
+    rw = _Rewrite(mc, names={'group_item.ValueType': 'value_type', '_unversioned_name(group_item)': 'name'})
     gblock = _fix([rw.visit(ast.parse(ast.unparse(s)).body[0]) for s in guards] + [ast.parse('return True').body[0]])
     t_guard = translate_block(gblock, 'roiCountGuard', [('value_type', 'str'), ('name', 'str')], {},
                               doc='`_count_roi_items`: the guards before the loop (value type, then name of the container)')
-    rw2 = _Rewrite(mc, names={'item.name': 'name', 'item.value_type': 'vt'})
-    lbody = [rw2.visit(ast.parse(ast.unparse(s)).body[0]) for s in loop.body]
+    # the name every comparison of the loop body reads: the item's concept name WITHOUT its coding scheme version (a name that
+    # states the version names the same concept); the first statement of the body binds it
+    if not loop.body or ' '.join(ast.unparse(loop.body[0]).split()) != 'item_name = _unversioned_name(item)':
+        raise Unsupported('_count_roi_items: the loop body no longer starts with `item_name = _unversioned_name(item)`')
+    rw2 = _Rewrite(mc, names={'item_name': 'name', 'item.value_type': 'vt'})
+    if any('item.name' in ast.unparse(s) for s in loop.body):
+        raise Unsupported('_count_roi_items: the loop body compares `item.name` (with its coding scheme version) again')
+    lbody = [rw2.visit(ast.parse(ast.unparse(s)).body[0]) for s in loop.body[1:]]
     lblock = _fix(lbody + [ast.parse('return (' + ', '.join(counters) + ')').body[0]])
     t_step = translate_block(lblock, 'roiCountStep', [('name', 'str'), ('vt', 'str')] + [(c, 'int') for c in counters], {},
                              doc='`_count_roi_items`: one iteration of the loop over the content items (counters in, counters out: '
                                  + ', '.join(counters) + ')')
+    un = find_func(tree, '_unversioned_name')
+    if [' '.join(ast.unparse(x).split()) for x in strip_doc(un.body)] != [
+            'name = item.name', 'if name.scheme_version is None: return name',
+            'return CodedConcept(value=name.value, scheme_designator=name.scheme_designator, meaning=name.meaning)']:
+        raise Unsupported('_unversioned_name changed: it must return the name itself or the same (value, designator, meaning) without version')
     parts = [t_guard, t_step]
-    shas = [ast.unparse(fn)]
+    shas = [ast.unparse(fn), ast.unparse(un)]
     for qual, nm in (('_contains_planar_rois', 'containsPlanarRois'), ('_contains_volumetric_rois', 'containsVolumetricRois')):
         f2 = find_func(tree, qual)
         b2 = strip_doc(f2.body)
@@ -760,12 +777,12 @@ def build_T16i(tree):
     if len(loops) != 1 or ast.unparse(loops[0].target) != 'item' or ast.unparse(loops[0].iter) != 'group_item.ContentSequence':
         raise Unsupported('_get_roi_reference_items: loop over group_item.ContentSequence not found')
     src = ' '.join(ast.unparse(fn).split())
-    for needle in ('returned_items = []', 'reference_type = None', 'expected_value_types = ref_type_value_type_map[item.name]',
-                   'reference_type = item.name', 'returned_items.append(item)',
+    for needle in ('returned_items = []', 'reference_type = None', 'item_name = _unversioned_name(item)', 'expected_value_types = ref_type_value_type_map[item_name]',
+                   'reference_type = item_name', 'returned_items.append(item)',
                    "if len(returned_items) == 0: raise RuntimeError(", 'return (reference_type, returned_items)'):
         if needle not in src:
             raise Unsupported(f'_get_roi_reference_items no longer contains `{needle}`')
-    if src.count('returned_items.append(item)') != 1 or src.count('reference_type = item.name') != 1:
+    if src.count('returned_items.append(item)') != 1 or src.count('reference_type = item_name') != 1:
         raise Unsupported('_get_roi_reference_items: more than one append / assignment of the reference type')
 
     class R(_Rewrite):
@@ -773,13 +790,13 @@ def build_T16i(tree):
             t = ast.unparse(node)
             if t == 'item.relationship_type != RelationshipTypeValues.CONTAINS':
                 return ast.Compare(left=ast.Name(id='rel', ctx=ast.Load()), ops=[ast.NotEq()], comparators=[_const('CONTAINS')])
-            if t == 'item.name in allowed_reference_types':
+            if t == 'item_name in allowed_reference_types':
                 return ast.Name(id='name_allowed', ctx=ast.Load())
             if t == 'item.value_type in expected_value_types':
                 return ast.Name(id='vt_expected', ctx=ast.Load())
             if t == 'reference_type is None':
                 return ast.UnaryOp(op=ast.Not(), operand=ast.Name(id='rt_given', ctx=ast.Load()))
-            if t == 'item.name != reference_type':
+            if t == 'item_name != reference_type':
                 return ast.UnaryOp(op=ast.Not(), operand=ast.Name(id='name_is_rt', ctx=ast.Load()))
             if isinstance(node.left, ast.Name) and node.left.id == 'reference_type' and len(node.ops) == 1 and \
                     isinstance(node.ops[0], (ast.In, ast.NotIn)):
@@ -792,7 +809,7 @@ def build_T16i(tree):
 
         def visit_Assign(self, node):
             t = ast.unparse(node)
-            if t in ('expected_value_types = ref_type_value_type_map[item.name]', 'reference_type = item.name'):
+            if t in ('expected_value_types = ref_type_value_type_map[item_name]', 'reference_type = item_name', 'item_name = _unversioned_name(item)'):
                 return ast.Pass()
             raise Unsupported(f'_get_roi_reference_items: assignment `{t}` in the loop body')
 
@@ -938,6 +955,25 @@ def build_T16k(tree):
         if len(src) != 1:
             raise Unsupported(f'{meth}: measurement_group_items is not assigned exactly once before the loop')
         frame.append((meth, 'groups', ' '.join(ast.unparse(src[0].value).split())))
+        # every other statement before the loop that mentions the list of groups (an in-place `reverse()`, `del …[1:]`, a slice
+        # assignment would trim or reorder it without an assignment to the name)
+        touching = [' '.join(ast.unparse(x).split()) for x in body[:k]
+                    if x is not src[0] and any(isinstance(n, ast.Name) and n.id == 'measurement_group_items' for n in ast.walk(x))]
+        frame.append((meth, 'groups-touched-before-loop', ' ; '.join(touching)))
+        # every (augmented) assignment to / deletion of the result list other than its initialisation
+        res_assign = []
+        for n in ast.walk(fn):
+            tg = []
+            if isinstance(n, ast.Assign):
+                tg = n.targets
+            elif isinstance(n, (ast.AugAssign, ast.AnnAssign)):
+                tg = [n.target]
+            elif isinstance(n, ast.Delete):
+                tg = n.targets
+            for t_ in tg:
+                if any(isinstance(y, ast.Name) and y.id == 'sequences' for y in ast.walk(t_)):
+                    res_assign.append(' '.join(ast.unparse(n).split()))
+        frame.append((meth, 'result-assignments', ' ; '.join(res_assign)))
         frame.append((meth, 'else', 'yes' if loop.orelse else 'no'))
         tail = body[k + 1:]
         if not tail or not isinstance(tail[-1], ast.Return):
@@ -1077,9 +1113,9 @@ def build_T16m(tree):
             rows.append((fn.name, code_text(kw['name']) if 'name' in kw else '', vt, rel, rec))
         if fn.name == 'get_qualitative_evaluations':
             tuples = [n for n in ast.walk(fn) if isinstance(n, ast.Compare) and len(n.ops) == 1 and isinstance(n.ops[0], ast.NotIn)
-                      and ast.unparse(n.left) == 'item.name' and isinstance(n.comparators[0], ast.Tuple)]
+                      and ast.unparse(n.left) == '_unversioned_name(item)' and isinstance(n.comparators[0], ast.Tuple)]
             if len(tuples) != 1:
-                raise Unsupported('get_qualitative_evaluations: the exclusion `item.name not in (...)` not found')
+                raise Unsupported('get_qualitative_evaluations: the exclusion `_unversioned_name(item) not in (...)` not found')
             reserved = [code_text(e) for e in tuples[0].comparators[0].elts]
         if fn.name in ('tracking_identifier', 'tracking_uid', 'finding_category', 'finding_type', 'method'):
             # single-valued accessors return the first match
